@@ -10,6 +10,13 @@ var chainStub = []string{"consensus reactor / WAL / p2p: the simulator chooses p
 
 func init() {
 	reg(&core.Property{
+		ID: "C10", Level: "exploration",
+		Batches: []core.Batch{{Name: "no-halt", Engine: chain.Engine{Prop: "C10"}, Quick: 1500, Thorough: 40000,
+			Rule: "a run is non-trivial when at least three heights were produced"}},
+		Real: chainReal, Stub: chainStub,
+		Assumptions: []string{"documented precondition: the anchor validators (one per replica) stay staked and are never accused by evidence, so that a validator set can always be elected", "genesis total supply is far below 2^64"},
+	})
+	reg(&core.Property{
 		ID: "C01", Level: "exploration",
 		Batches: []core.Batch{{Name: "replicas", Engine: chain.Engine{Prop: "C01"}, Quick: 1500, Thorough: 40000,
 			Rule: "a run is non-trivial when at least three heights were produced"}},
